@@ -2144,14 +2144,14 @@ func (r *stack) revealSingle(idx int) (err error) {
 		// If a condition ...
 		if c, okc := conditionTypeAliasConverter(slice); okc {
 			// ... If condition expression is a stack ...
-			if inner, iok := stackTypeAliasConverter(c.Expression()); iok {
+			if inner, iok := stackTypeAliasConverter(c.Expression()); iok && inner.IsInit() {
 				// ... recurse into said stack expression
 				if err = inner.reveal(); err == nil {
 					// update the condition w/ new value
 					c.SetExpression(inner)
 				}
 			}
-		} else if inner, iok := stackTypeAliasConverter(slice); iok {
+		} else if inner, iok := stackTypeAliasConverter(slice); iok && inner.IsInit() {
 			// If a stack then recurse
 			err = inner.reveal()
 		}
